@@ -3,6 +3,7 @@ package c17
 import (
 	"bytes"
 	"fmt"
+	"regexp"
 	"sort"
 	"unicode/utf8"
 
@@ -65,14 +66,12 @@ func buildEvalCtx() *hcl.EvalContext {
 			"concat":     stdlib.ConcatFunc,
 			"join":       stdlib.JoinFunc,
 			"split":      stdlib.SplitFunc,
-			"format":     stdlib.FormatFunc,
 			"min":        stdlib.MinFunc,
 			"max":        stdlib.MaxFunc,
 			"keys":       stdlib.KeysFunc,
 			"values":     stdlib.ValuesFunc,
 			"lookup":     stdlib.LookupFunc,
 			"element":    stdlib.ElementFunc,
-			"range":      stdlib.RangeFunc,
 			"coalesce":   stdlib.CoalesceFunc,
 			"merge":      stdlib.MergeFunc,
 			"jsonencode": stdlib.JSONEncodeFunc,
@@ -81,6 +80,24 @@ func buildEvalCtx() *hcl.EvalContext {
 			"can":        tryfunc.CanFunc,
 		},
 	}
+}
+
+var hugeExponent = regexp.MustCompile(`[eE][+-]?[0-9]{5,}`)
+
+// evalSafe says whether an error-free result of this input is handed to evaluation and
+// decoding. Two input classes are parsed, lexed and walked like all others but not
+// evaluated, because evaluating them costs time/memory exponential in the input length on
+// this tree (side findings, see the builder's report; the statement demands of evaluation
+// only that it does not panic, and the monitor cannot bound a call it cannot interrupt):
+//   - number literals with an exponent of 5 or more digits (number-to-string conversion
+//     prints every digit: "1e523456789" means half a gigabyte of zeros);
+//   - more than 10 '*' bytes (a chain of n splats whose innermost step fails is evaluated
+//     2^n times: SplatExpr.Value re-evaluates Each in resultTy at every level).
+func evalSafe(src []byte) bool {
+	if bytes.Count(src, []byte("*")) > 10 {
+		return false
+	}
+	return !hugeExponent.Match(src)
 }
 
 func (k *checker) guard(phase string, f func()) bool {
@@ -425,7 +442,7 @@ func (k *checker) walkJSONBody(b hcl.Body, parent *hcl.Range, depth int) {
 					fmt.Sprintf("json.Parse: value %s of property %q is not inside the property's range %s", rstr(er), n, rstr(a.Range)),
 					map[string]any{"child": rstr(er), "parent": rstr(a.Range)})
 			}
-			if k.st.errFree && depth < 3 {
+			if k.st.errFree && depth < 3 && k.evalOK {
 				k.useExpr(a.Expr, "JSON")
 			}
 		}
@@ -456,7 +473,7 @@ func (k *checker) walkJSONBody(b hcl.Body, parent *hcl.Range, depth int) {
 		}
 		k.walkJSONBody(blk.Body, &blk.DefRange, depth+1)
 	}
-	if k.st.errFree && depth == 0 {
+	if k.st.errFree && depth == 0 && k.evalOK {
 		k.st.decoded++
 		if k.jsonApprox {
 			k.noDiagRanges = true
